@@ -741,10 +741,73 @@ func c20Check(run *Run, e *c20Env, c *c20Case) {
 	}
 }
 
+// ---- one datasource serving several requests --------------------------------------------------------------------------------
+
+var c20ReuseQueries = []string{
+	`query Q($id: ID!) { authorById(id: $id) { id name favoriteCategories { id totalProducts activeSubcategories { id parentCategory { id totalProducts } } } } }`,
+	`query Q($id: ID!) { authorById(id: $id) { id favoriteCategories { activeSubcategories { parentCategory { totalProducts } } } email } }`,
+	`query Q($id: ID!) { blogPostById(id: $id) { id title tags } }`,
+	`query Q($id: ID!) { nullableFieldsTypeById(id: $id) { id optionalString requiredInt } }`,
+}
+
+func (e *c20Env) newDataSource(query string) (*grpcdatasource.DataSource, error) {
+	doc, rep := astparser.ParseGraphqlDocumentString(query)
+	if rep.HasErrors() {
+		return nil, fmt.Errorf("parse: %s", rep.Error())
+	}
+	return grpcdatasource.NewDataSource(grpcdatasource.NewGRPCTransport(e.conn), grpcdatasource.DataSourceConfig{
+		Operation: &doc, Definition: e.def, SubgraphName: "Products", Compiler: e.compiler, Mapping: e.mapping})
+}
+
+func c20Load(ds *grpcdatasource.DataSource, query, id string) (out string) {
+	defer func() {
+		if r := recover(); r != nil {
+			out = fmt.Sprintf("PANIC: %v", r)
+		}
+	}()
+	in, _ := json.Marshal(map[string]any{"query": query, "body": map[string]any{"variables": map[string]any{"id": id}}})
+	b, err := ds.Load(context.Background(), nil, in)
+	if err != nil {
+		return "ERROR: " + err.Error()
+	}
+	return string(b)
+}
+
+// the answer for (operation, variables) does not depend on what the datasource served before
+func c20ReuseCheck(run *Run, e *c20Env, r *rand.Rand) {
+	q := c20ReuseQueries[r.Intn(len(c20ReuseQueries))]
+	shared, err := e.newDataSource(q)
+	if err != nil {
+		run.Violate(Violation{Kind: "oracle", Clause: "datasource_builds", Input: map[string]any{"query": q}, Detail: err.Error()}, "")
+		return
+	}
+	var ids []string
+	for i := 0; i < 3+r.Intn(4); i++ {
+		ids = append(ids, pick(r, []string{"1", "2", "not-found", "null-test", "7"}))
+	}
+	for k, id := range ids {
+		got := c20Load(shared, q, id)
+		fresh, err := e.newDataSource(q)
+		if err != nil {
+			return
+		}
+		want := c20Load(fresh, q, id)
+		if !c03JSONEq(got, want) {
+			run.Violate(Violation{Kind: "oracle", Clause: "answer_independent_of_history", Input: map[string]any{"reuse": true, "query": q, "ids": ids, "step": k},
+				Impl: got, Model: want, Detail: fmt.Sprintf("request %d (id %q) on a datasource that already served %v answers %s; a fresh datasource answers %s", k, id, ids[:k], truncate(got, 500), truncate(want, 500))}, "")
+			return
+		}
+	}
+	run.Feat("reuse_sequence")
+	run.mu.Lock()
+	run.TracesVsImpl++
+	run.mu.Unlock()
+}
+
 func runC20(run *Run, replay string) Spec {
 	spec := Spec{
 		Level:       "translation_validation",
-		Rule:        "21 deterministic root fields of the mock product service (objects, lists, nested lists, nullable fields, enums, interfaces, unions, recursive types) × generated selection trees × 3 formulations each (subset, aliases, reordering, duplicated leaves, a field split into two occurrences with partial selections, inline fragments on the same type, per-type fragments of abstract types): the datasource's answer = projection, by the Lean reference executor, of the service data (the answer to the canonical alias-free superset with __typename and all scalars); every value has the kind its declared type demands. non-trivial = cases with an abstract type or a split / aliased field; distinct = distinct (root, tree)",
+		Rule:        "21 deterministic root fields of the mock product service (objects, lists, nested lists, nullable fields, enums, interfaces, unions, recursive types) × generated selection trees × 3 formulations each (subset, aliases, reordering, duplicated leaves, a field split into two occurrences with partial selections, inline fragments on the same type, per-type fragments of abstract types): the datasource's answer = projection, by the Lean reference executor, of the service data (the answer to the canonical alias-free superset with __typename and all scalars); every value has the kind its declared type demands; sequences of 3–6 requests with different variables on ONE datasource answer like fresh datasources. non-trivial = cases with an abstract type or a split / aliased field; distinct = distinct (root, tree)",
 		TrustedBase: []string{"the Lean reference executor GqlVerif.Gql.Exec as the projection (CollectFields, field merging, fragment applicability, aliases)", "the repository's mock service, proto schema, default mapping and compiler", "the canonical superset's answer as the service data"},
 		Assumptions: []string{"fields with arguments below the root (field resolvers), entity lookups, mutations and the two random root fields are not exercised", "every operation passes the repository's normalizer (fragment inlining, field merging, variable extraction) before it reaches the datasource, as on the engine's path; duplicated and split fields and same-type fragments therefore reach the datasource merged"},
 	}
@@ -816,6 +879,9 @@ func runC20(run *Run, replay string) Spec {
 				for i := 0; i < 3; i++ {
 					f := &c20Formulator{r: r, e: e, feats: feats}
 					c.Formulations = append(c.Formulations, "query Q { "+root.field+root.args+" "+f.selOf(tree, false)+" }")
+				}
+				if k%10 == 0 {
+					c20ReuseCheck(run, e, r)
 				}
 				run.SetCurrent(w, c)
 				c20Check(run, e, c)
